@@ -295,7 +295,7 @@ def _find_witness(sp: Space, cols, vals, tau, rng, model_y=None, nra_timeout=100
 
 def prove_close(ctx: Ctx, name, fn, args, sp: Space, *, eps=1e-9, select=None, scale_floor=0.0,
                 exact=False, twin=True, core=True, config=None, batch=128, ref_scale=None,
-                validate=True, pre=None, clear_denominators=False, reduce_atoms=False):
+                validate=True, pre=None, clear_denominators=False, reduce_atoms=False, reraise=()):
   """Obligation: for every assignment in the box, lhs == rhs within eps * S.
 
   `fn(*args)` returns (lhs_tree, rhs_tree) with equal structure, or a single tree (compared
@@ -312,9 +312,20 @@ def prove_close(ctx: Ctx, name, fn, args, sp: Space, *, eps=1e-9, select=None, s
             json.dumps(json.loads(json.dumps(config, default=_json_default)), sort_keys=True, default=str))
     if same and 'inputs' in rp:
       conc = [np.asarray(v, dtype=float) for v in rp['inputs']]
-      out = jax.jit(fn)(*conc)
       sig = rp['signature']
-      if sig.get('kind') == 'shape':
+      try:
+        out = jax.jit(fn)(*conc)
+      except Exception as e_:  # noqa: BLE001
+        if sig.get('kind') == 'raises':
+          print(f'REPLAY {name}: the real function raises {type(e_).__name__}')
+          ctx.replay_hits += 1
+          ctx.res['violations'].append(dict(clause=name, signature=sig, replay=os.environ['DVERIF_REPLAY'], message='replayed'))
+          return True
+        raise
+      if sig.get('kind') == 'raises':
+        reproduced = False       # (reached only if the call above returned normally)
+        print(f'REPLAY {name}: the real function returned normally')
+      elif sig.get('kind') == 'shape':
         li = sig['leaf']
         rl = jax.tree_util.tree_leaves(out[0])[li]; rr = jax.tree_util.tree_leaves(out[1])[li]
         print(f'REPLAY {name}: shapes {np.shape(rl)} vs {np.shape(rr)}')
@@ -342,7 +353,29 @@ def prove_close(ctx: Ctx, name, fn, args, sp: Space, *, eps=1e-9, select=None, s
     ctx.error(name, f'unsupported: {e}')
     ctx.clause(name, 'error', config=config, message=str(e))
     return False
-  except NonFiniteConstant as e:
+  except (HarnessError, smt.SolverError):
+    raise
+  except Exception as e:  # noqa: BLE001
+    from dverif.poly import BlowUp, DegreeOverflow, DefinednessHazard
+    if reraise and isinstance(e, tuple(reraise)):
+      raise          # the caller treats this exception class itself (e.g. option combinations the library documents as rejected)
+    if isinstance(e, (NonFiniteConstant, BlowUp, DegreeOverflow, DefinednessHazard)) or fn is None:
+      if not isinstance(e, NonFiniteConstant):
+        raise
+    else:
+      # tracing / running the code under test raised: if the REAL function also raises on a concrete admissible input, the property
+      # ("returns the same values ...") is violated on that input; otherwise it is a harness problem
+      xv = sp.random_point(ctx.rng)
+      conc = [np.asarray(a.evaluate(xv)) if is_sym(a) else np.asarray(a) for a in args]
+      try:
+        fn(*[jnp.asarray(c) for c in conc])
+      except Exception as e2:  # noqa: BLE001
+        msg = f'{type(e2).__name__}: {str(e2).splitlines()[0][:160] if str(e2) else ""}'
+        ctx.violation(name, dict(config=config, kind='raises', error=type(e2).__name__), dict(inputs=[c.tolist() for c in conc], error=msg),
+                      f'{name}: the real function raises on an admissible input instead of returning a value: {msg}')
+        ctx.clause(name, 'failed', config=config, queries=0)
+        return False
+      raise
     # the IR contains inf/nan constants: replay on the real function at a random point
     xv = sp.random_point(ctx.rng)
     conc = [np.asarray(a.evaluate(xv)) if is_sym(a) else np.asarray(a) for a in args]
